@@ -1074,6 +1074,8 @@ where
                     result.union_operand(first.clone());
                     ClassSetOperator::Intersection
                 } else {
+                    // A single '&' is an ordinary class member: keep the operand before it.
+                    result.union_operand(first.clone());
                     result.codepoints.add_one(0x26 /* & */);
                     ClassSetOperator::Union
                 }
